@@ -94,7 +94,21 @@ def strategy(tier, campaign):
         prof, kind = gen.profile(**_open_sa()[1][campaign]), "sa"
     else:
         prof, kind = gen.profile(**_open_pure()[1][campaign]), "pure"
-    return st.fixed_dictionaries({"spec": gen.machine_specs(prof), "history": gen.histories(prof, max_len=12),
+    def computed_params(spec):
+        # every third marker action (other than the leading entry/exit/transition markers the oracles
+        # key on is fine too: params do not change what a marker logs) carries computed params
+        n = 0
+        for sid, s in walk_states(spec):
+            lists = [s.get("entry"), s.get("exit")] + [t.get("actions") for _f, _k, _i, t in state_transitions(s) if not t.get("null")]
+            for lst in lists:
+                for a in walk_actions(lst or []):
+                    if a.get("k") == "mark":
+                        n += 1
+                        if n % 3 == 0:
+                            a["cparams"] = True
+        return spec
+
+    return st.fixed_dictionaries({"spec": gen.machine_specs(prof).map(computed_params), "history": gen.histories(prof, max_len=12),
                                   "kind": st.just(kind)})
 
 
@@ -238,6 +252,8 @@ def check_pure(case, res: CaseResult):
     idx = Index(spec)
     tree = Tree(spec)
     # purity
+    if getattr(rp, "machine_mutated", None):
+        res.violate("pure|machine-definition-mutated", rp.machine_mutated)
     if rp.rec.user_calls:
         res.violate("pure|ran-user-actions", {"calls": rp.rec.user_calls, "acts": [e[1] for e in rp.rec.log if e[0] == "act"][:5]})
     history_used = False
